@@ -183,7 +183,7 @@ fn execute(case: &SCase) -> Obs {
                     sim.poll(*k);
                 }
                 SOp::Settle => {
-                    sim.settle();
+                    crate::util::settle(&mut sim);
                 }
                 SOp::Advance { ms } => {
                     sim.advance(Duration::from_millis(*ms)).await;
@@ -203,7 +203,7 @@ fn execute(case: &SCase) -> Obs {
                 idle.push(sim.tick());
             }
         }
-        sim.settle();
+        crate::util::settle(&mut sim);
         note_reads(&sim, &mut reads, &mut last_read);
         idle.push(sim.tick());
         Obs {
